@@ -1129,21 +1129,28 @@ func c02StepKeyName(w *World, cnt *types.Func, pc, toggle *types.Var) string {
 		if !w.OwnedBy(g, root) || len(g.Params) == 0 {
 			continue
 		}
-		var lit, elem *ssa.BasicBlock
+		var lit, elem []*ssa.BasicBlock
 		for _, b := range g.Blocks {
 			for _, in := range b.Instrs {
 				if c, ok := in.(*ssa.Call); ok && c.Call.StaticCallee() != nil {
 					switch c.Call.StaticCallee().Object() {
 					case types.Object(newLit):
-						lit = b
+						lit = append(lit, b)
 					case types.Object(pushElem):
-						elem = b
+						elem = append(elem, b)
 					}
 				}
 			}
 		}
 		if lit == nil || elem == nil {
 			continue
+		}
+		join := func(bs []*ssa.BasicBlock) *pcF {
+			out := pcZ
+			for _, b := range bs {
+				out = pcOrF(out, sym.PathCond(g.Blocks[0], b, nil))
+			}
+			return out
 		}
 		isLoadOf := func(v ssa.Value, fld *types.Var) bool {
 			ld, ok := v.(*ssa.UnOp)
@@ -1180,10 +1187,10 @@ func c02StepKeyName(w *World, cnt *types.Func, pc, toggle *types.Var) string {
 			}
 			return ""
 		}
-		if msg := pcCompare(sym.PathCond(g.Blocks[0], lit, nil), classify, func(env map[string]bool) bool { return env["inpred"] && env["even"] }); msg != "" {
+		if msg := pcCompare(join(lit), classify, func(env map[string]bool) bool { return env["inpred"] && env["even"] }); msg != "" {
 			return "the literal is pushed under another condition: " + msg
 		}
-		if msg := pcCompare(sym.PathCond(g.Blocks[0], elem, nil), classify, func(env map[string]bool) bool { return !(env["inpred"] && env["even"]) }); msg != "" {
+		if msg := pcCompare(join(elem), classify, func(env map[string]bool) bool { return !(env["inpred"] && env["even"]) }); msg != "" {
 			return "the path element is appended under another condition: " + msg
 		}
 		return ""
